@@ -590,7 +590,10 @@ def flow_b(ctx, extra_units):
 EXPECTED_RULES = {"6.7.1p3-block-thread-local", "6.7.1p7-block-function-storage-class", "6.7.9p5-block-linkage-initializer",
                   "6.7p3-no-linkage-redeclared", "6.7p4-different-kind", "6.2.7p2", "6.7.1p3-thread-local-mismatch", "6.9p3-internal-redefined",
                   "6.9p3-internal-used-undefined", "6.2.2p7", "6.9p5", "6.7.4p7"}
-EXPECTED_DEVS = {"ExternInheritsNoLinkage", "ThreadNoTentative", "ThreadMismatchNotDiagnosed", "InlineLateExternal", "NoUsedInternalUndefDiag"}
+ALL_DEVS = {"ExternInheritsNoLinkage", "ThreadNoTentative", "ThreadMismatchNotDiagnosed", "InlineLateExternal", "NoUsedInternalUndefDiag"}
+# deviations of the shipped tree (DevsOn of the committed cfgs). ExternInheritsNoLinkage was repaired by /repo 82bd59f:
+# it is off, so the old behaviour is an unexplained VIOLATION again.
+EXPECTED_DEVS = ALL_DEVS - {"ExternInheritsNoLinkage"}
 
 
 def cfg_path(ctx, cfg):
@@ -600,7 +603,7 @@ def cfg_path(ctx, cfg):
     if devs is None:
         return cfg
     want = [d for d in devs.split(",") if d and d != "none"]
-    if set(want) - EXPECTED_DEVS:
+    if set(want) - ALL_DEVS:
         raise vlib.MachineryError("C09_DEVS: unknown deviation in %r" % devs)
     txt = open(os.path.join(vlib.SPEC, cfg)).read()
     txt, n = re.subn(r"(?m)^  DevsOn = .*$", "  DevsOn = {%s}" % ", ".join('"%s"' % d for d in want), txt)
@@ -698,10 +701,13 @@ def run(ctx):
                       workers=8 if q else 16, audit_every=1 if q else 4)
     # B. the same with __asm__ labels and object/function mixes
     stream(ctx, objdir, "MC_Linkage_mix_quick.cfg" if q else "MC_Linkage_mix_thorough.cfg", "m", stats, workers=8 if q else 16)
+    # B'. objects whose first declaration carries an __asm__ label, length 3 (block auto/static hiding the file-scope
+    #     declaration, nested extern: the re-lookup of the file-scope prior in declcommon)
+    stream(ctx, objdir, "MC_Linkage_asm_quick.cfg", "a", stats, workers=8)
     # C. random multi-identifier units
     r3, units3 = stream(ctx, objdir, "MC_Linkage_sim.cfg", "s", stats, simulate=1 if q else 24, depth=12, keep_units=100 if q else 400, workers=4 if q else 8)   # num is per worker; TLC checks (and so emits) every generated successor
     # vacuity guard: every rule of the specification and every named deviation occurred
-    devs_on = EXPECTED_DEVS if os.environ.get("C09_DEVS") is None else set(os.environ["C09_DEVS"].split(",")) & EXPECTED_DEVS
+    devs_on = EXPECTED_DEVS if os.environ.get("C09_DEVS") is None else set(os.environ["C09_DEVS"].split(",")) & ALL_DEVS
     missing = (EXPECTED_RULES - stats["rules"]) | (devs_on - stats["devs"])
     ctx.cov["classes"] = stats["classes"]
     ctx.cov["rules_exercised"] = sorted(stats["rules"])
